@@ -34,7 +34,9 @@ def write_mc(workdir, thorough):
     hcfg = os.path.join(workdir, mod + "_hist.cfg")
     tlc.write_cfg(hcfg, spec="HSpec", constants=consts, invariants=["HWellFormed", "HStaleOnlyByAlias", "HAgreeUnlessConverted"])
     rcfg = os.path.join(workdir, mod + "_hist_repaired.cfg")
-    tlc.write_cfg(rcfg, spec="HSpec", constants=dict(consts, AliasSurvivesConv=True), invariants=["HWellFormed", "HAgree"])
+    # the other variant: with the fix in the tree the as-coded model keeps the alias and HAgree holds on every history; the pinned design
+    # (alias lost by a conversion) must then be REJECTED by HAgree (the invariant can fail).  Before the fix it is the other way round.
+    tlc.write_cfg(rcfg, spec="HSpec", constants=dict(consts, AliasSurvivesConv=not PRIOR_ALIAS_FIXED), invariants=["HWellFormed", "HAgree"])
     return os.path.join(workdir, mod + ".tla"), cfg, hcfg, rcfg
 
 
@@ -994,7 +996,7 @@ def run_prior_histories(ck, states, thorough):
     for fam in ("Normal", "LogNormal", "HalfNormal", "HalfCauchy", "Horseshoe", "Gamma", "Uniform", "SmoothedBox", "MVN2", "LKJ2"):
         if fam not in fams:
             ck.vacuous("no history for prior family %s" % fam)
-    if not n_pred:
+    if not n_pred and not PRIOR_ALIAS_FIXED:
         ck.vacuous("the code-shaped model predicts no stale prior (the dtype conversion branch was not reached)")
     items = []
     for (fam, real), hs in sorted(by.items()):
